@@ -53,5 +53,5 @@ for c in checks:
     first = [l for l in out.split("\n") if l.startswith(f"[{c}] ") and "tier=" not in l and "obligation" not in l]
     res["checks"][c] = {"exit": rc, "violations": len(viol), "summary": last[-1] if last else out[-200:],
                         "example": first[0][:300] if first else "", "no_input": any("no-failing-input-found" in v for v in viol)}
-sh("git checkout -- .", cwd="/repo")
+sh("git checkout -- . && git clean -fdq src", cwd="/repo")
 print(json.dumps(res, indent=1))
